@@ -56,3 +56,123 @@ def check(ctx, rep, rid, part_fields=None, seg_fields=None):
     st = {k: v for k, v in SEGMENT_TABLE.items() if seg_fields is None or k in seg_fields}
     forms.check_table(ctx, rep, rid, PART, pt)
     forms.check_table(ctx, rep, rid, SEG, st)
+
+
+# ---------------------------------------------------------------------------------------------------------------------
+# constructors: the value every field of a fresh Segment / Partition / Topic / Stream starts with.  A loaded entity is
+# a constructed one with some fields overwritten by the loader, so every field the loader does NOT restore keeps this
+# value after a restart (e.g. Segment.end_timestamp, the paths, the shared counters).  Fields that are added later are
+# not in the table and are not checked.
+TOPIC = 'server::streaming::topics::topic::Topic'
+STREAM = 'server::streaming::streams::stream::Stream'
+CONSTRUCTORS = {
+    SEG + '::create': {SEG: {
+        'stream_id': 'stream_id', 'topic_id': 'topic_id', 'partition_id': 'partition_id',
+        'start_offset': 'start_offset', 'current_offset': 'start_offset', 'end_offset': '0',
+        'start_timestamp': 'IggyTimestamp::as_micros(IggyTimestamp::now())',
+        # not restored by the loader: a loaded segment must not look older than any query (get_messages_by_timestamp skips segments whose end_timestamp is below the query)
+        'end_timestamp': 'IggyTimestamp::as_micros(IggyTimestamp::now())',
+        'index_path': 'Segment::get_index_path(SystemConfig::get_segment_path(config, stream_id, topic_id, partition_id, start_offset))',
+        'log_path': 'Segment::get_log_path(SystemConfig::get_segment_path(config, stream_id, topic_id, partition_id, start_offset))',
+        'size_bytes': '0', 'last_index_position': '0', 'is_closed': '0',
+        'max_size_bytes': 'config.segment.size',
+        'size_of_parent_stream': 'size_of_parent_stream', 'size_of_parent_topic': 'size_of_parent_topic', 'size_of_parent_partition': 'size_of_parent_partition',
+        'messages_count_of_parent_stream': 'messages_count_of_parent_stream', 'messages_count_of_parent_topic': 'messages_count_of_parent_topic',
+        'messages_count_of_parent_partition': 'messages_count_of_parent_partition',
+        'message_expiry': 'phi{config.segment.message_expiry | message_expiry}',
+        'unsaved_messages': 'Option::None{}',
+        'indexes': 'phi{Option::None{} | Vec::new()}',
+        'log_size_bytes': 'Atomic::new(0)', 'index_size_bytes': 'Atomic::new(0)',
+    }},
+    PART + '::create': {PART: {
+        'stream_id': 'stream_id', 'topic_id': 'topic_id', 'partition_id': 'partition_id',
+        'partition_path': 'SystemConfig::get_partition_path(config, stream_id, topic_id, partition_id)',
+        'offsets_path': 'SystemConfig::get_offsets_path(config, stream_id, topic_id, partition_id)',
+        'consumer_offsets_path': 'SystemConfig::get_consumer_offsets_path(config, stream_id, topic_id, partition_id)',
+        'consumer_group_offsets_path': 'SystemConfig::get_consumer_group_offsets_path(config, stream_id, topic_id, partition_id)',
+        'current_offset': '0', 'unsaved_messages_count': '0', 'should_increment_offset': '0',
+        'created_at': 'created_at',
+        'messages_count_of_parent_stream': 'messages_count_of_parent_stream', 'messages_count_of_parent_topic': 'messages_count_of_parent_topic',
+        'messages_count': 'Atomic::new(0)',
+        'size_of_parent_stream': 'size_of_parent_stream', 'size_of_parent_topic': 'size_of_parent_topic', 'size_bytes': 'Atomic::new(0)',
+        'segments_count_of_parent_stream': 'segments_count_of_parent_stream',
+        'message_expiry': 'message_expiry',
+        'consumer_offsets': 'DashMap::new()', 'consumer_group_offsets': 'DashMap::new()', 'segments': 'Vec::new()',
+    }},
+    TOPIC + '::create': {TOPIC: {
+        'stream_id': 'stream_id', 'topic_id': 'topic_id', 'name': '::to_string(name)',
+        'path': 'SystemConfig::get_topic_path(config, stream_id, topic_id)',
+        'partitions_path': 'SystemConfig::get_partitions_path(config, stream_id, topic_id)',
+        'size_bytes': 'Atomic::new(0)', 'messages_count': 'Atomic::new(0)',
+        'size_of_parent_stream': 'size_of_parent_stream', 'messages_count_of_parent_stream': 'messages_count_of_parent_stream',
+        'segments_count_of_parent_stream': 'segments_count_of_parent_stream',
+        'partitions': 'AHashMap::new()', 'consumer_groups': 'AHashMap::new()', 'consumer_groups_ids': 'AHashMap::new()',
+        'current_consumer_group_id': 'Atomic::new(1)', 'current_partition_id': 'Atomic::new(1)',
+        'message_expiry': 'Topic::get_message_expiry(message_expiry, config)',
+        'compression_algorithm': 'compression_algorithm',
+        'replication_factor': 'replication_factor',
+    }},
+    STREAM + '::create': {STREAM: {
+        'stream_id': 'id', 'name': '::to_string(name)',
+        'path': 'SystemConfig::get_stream_path(config, id)', 'topics_path': 'SystemConfig::get_topics_path(config, id)',
+        'current_topic_id': 'Atomic::new(1)',
+        'size_bytes': 'Atomic::new(0)', 'messages_count': 'Atomic::new(0)', 'segments_count': 'Atomic::new(0)',
+        'topics': 'AHashMap::new()', 'topics_ids': 'AHashMap::new()',
+    }},
+}
+
+
+def check_constructors(ctx, rep, rid, only=None):
+    """only: {constructor suffix: set of fields} restricts the table (a property that owns a subset of the fields)"""
+    tab = {}
+    for fn, per in CONSTRUCTORS.items():
+        for adt, fields in per.items():
+            sel = {k: v for k, v in fields.items() if only is None or k in only.get(adt.split('::')[-1], ())}
+            if sel:
+                tab.setdefault(fn, {})[adt] = sel
+    forms.check_aggregates(ctx, rep, rid, tab, skip_absent=True)
+
+
+# ---------------------------------------------------------------------------------------------------------------------
+# settings pass-through: a topic-level setting handed down a call chain (handler -> System -> Stream -> Topic ->
+# Partition -> Segment, and the loaders) is, at every hop, the caller's own value of that setting: the parameter of
+# that name, the field of that name of the entity at hand (self / topic / partition / state / command), or that value
+# resolved by the setting's own resolver (Topic::get_message_expiry / get_max_topic_size).  The server-wide default
+# (`….config.….<setting>`) may enter only inside the resolver.
+SETTING_CONSTANTS = {   # (caller, setting) -> constant forms confirmed by reading
+    ('server::streaming::topics::topic::Topic::empty', 'message_expiry'): 'IggyExpiry::NeverExpire{}',
+    ('server::streaming::topics::topic::Topic::empty', 'max_topic_size'): 'MaxTopicSize::ServerDefault{}',
+    ('server::streaming::topics::topic::Topic::empty', 'compression_algorithm'): '::default()',
+    ('server::streaming::topics::topic::Topic::empty', 'replication_factor'): '1',
+}
+
+
+def settings_passthrough(ctx, rep, rid, settings):
+    import re
+    from mir import canon
+    from lib import is_user_call
+    n = 0
+    for d in sorted(ctx.facts.body_defs()):
+        if not (d.startswith('server::') or d.startswith('<server::')) or '__CALLSITE' in d:
+            continue
+        b = ctx.body(d)
+        for c in b.calls:
+            if not is_user_call(c):
+                continue
+            r = ctx.facts.fns.get(c.name)
+            if not r or not r.get('pnames') or len(r['pnames']) != len(c.args):
+                continue
+            for i, p in enumerate(r['pnames']):
+                if p not in settings:
+                    continue
+                caller = ctx.user_fn_of(d)
+                form = canon(b.pexpr_operand(c.args[i], 0, frozenset(), (c.bb, 't')), 0, 2)
+                own = r'(?:\w+\.)?%s' % p
+                ok = bool(re.fullmatch(own, form)
+                          or re.fullmatch(r'Topic::get_%s\(%s, [\w\.]*config\)' % (p, own), form)
+                          or re.fullmatch(r'Option::unwrap_or\(%s, 1\)' % own, form) and p == 'replication_factor'
+                          or SETTING_CONSTANTS.get((caller, p)) == form)
+                n += 1
+                rep.ob(rid, caller, '%s(%s = %s)' % (c.name.split('::')[-1], p, form), ok, c.where(), None if ok else
+                       '`%s` handed to %s is `%s`: not the caller\'s own %s (parameter or field of that name of the entity at hand, possibly resolved by Topic::get_%s)' % (p, c.name, form, p, p))
+    return n
